@@ -145,3 +145,66 @@ if __name__ == "__main__" and sys.argv[1] == "sweep":
     if args and args[0].startswith("--jobs="):
         jobs = int(args[0].split("=")[1]); args = args[1:]
     sweep(args, jobs)
+
+
+def sweep_harmless(jobs=3):
+    """The behaviour-preserving rewrites (seeded/harmless/H*-*), each against the quick checks of the properties whose code it touches
+    (the list recorded in seeded/harmless_results.txt), in sandboxes.  Every run must exit 0."""
+    import concurrent.futures, glob, re
+    base = tempfile.mkdtemp(prefix="sv-base-", dir="/tmp")
+    rc, out = sh("git -C %s archive HEAD | tar -x -C %s" % (VERIF, base))
+    assert rc == 0, out
+    shutil.rmtree(os.path.join(base, "seeded"), ignore_errors=True)
+    rc, out = sh(["./check", "setup"], cwd=base, timeout=3000)
+    assert rc == 0, out
+    props_of = {}
+    for l in open(os.path.join(VERIF, "seeded", "harmless_results.txt")):
+        m = re.match(r"stage-(H\d-\d) (C\d\d) ", l)
+        if m and m.group(2) not in props_of.setdefault(m.group(1), []):
+            props_of[m.group(1)].append(m.group(2))
+    jobsl = [(h, p) for h in sorted(props_of) for p in props_of[h]]
+
+    def one(hp):
+        h, prop = hp
+        sv = tempfile.mkdtemp(prefix="sv-%s-%s-" % (h, prop), dir="/tmp")
+        sw = sv + "-repo"
+        try:
+            sh(["rsync", "-a", base + "/", sv + "/"])
+            rc, out = sh(["git", "-C", "/repo", "worktree", "add", "-q", "--detach", sw, "HEAD"])
+            assert rc == 0, out
+            rc, out = sh(["git", "-C", sw, "apply", os.path.join(VERIF, "seeded", "harmless", h, "patch.diff")])
+            assert rc == 0, out
+            gm = os.path.join(sv, "harness", "go.mod")
+            txt = open(gm).read().replace("=> /repo", "=> " + sw)
+            open(gm, "w").write(txt)
+            p = subprocess.run([os.path.join(sv, "check"), prop, "--tier", "quick"], cwd=sv, env=dict(ENV, VERIF_REPO=sw),
+                               stdout=subprocess.PIPE, stderr=subprocess.STDOUT, text=True, timeout=3000)
+            viol = [l for l in p.stdout.split("\n") if l.startswith("VIOLATION")]
+            detail = ""
+            if viol:
+                try:
+                    rp = viol[0].split("replay=")[1].split()[0]
+                    detail = open(os.path.join(sv, rp)).read()[:1500]
+                except Exception as e:  # noqa
+                    detail = str(e)
+            res = (h, prop, p.returncode, viol[:2], detail)
+        except Exception as e:  # noqa
+            res = (h, prop, -1, ["sweep error: %s" % e], "")
+        finally:
+            sh(["git", "-C", "/repo", "worktree", "remove", "--force", sw])
+            shutil.rmtree(sv, ignore_errors=True)
+        print("harmless", res[0], res[1], "exit", res[2], res[3], flush=True)
+        if res[4]:
+            print(res[4], flush=True)
+        return res
+
+    with concurrent.futures.ThreadPoolExecutor(max_workers=jobs) as ex:
+        results = list(ex.map(one, jobsl))
+    shutil.rmtree(base, ignore_errors=True)
+    sh(["git", "-C", "/repo", "worktree", "prune"])
+    alarms = [(r[0], r[1]) for r in results if r[2] != 0]
+    print("HARMLESS: %d runs, %d alarms %s" % (len(results), len(alarms), alarms))
+
+
+if __name__ == "__main__" and sys.argv[1] == "harmless":
+    sweep_harmless(int(sys.argv[2]) if len(sys.argv) > 2 else 3)
